@@ -176,3 +176,29 @@ def undefined_variants(t, v, limit=2):
                 continue
             out.append(c)
     return out
+
+
+def sequence_variants(t, v, limit=2):
+    """values of the same type with another runtime class where the annotation is abstract: a tuple for Sequence[T] /
+    Collection[T] (top level or dataclass field) -- deserialization always builds lists / tuples of one kind there"""
+    import copy
+    import dataclasses
+    from vf.spec import Coll, ObjectT, strip
+
+    out = []
+    b = strip(t)
+    if isinstance(b, Coll) and b.c in ("seq", "coll") and isinstance(v, (list, tuple)):
+        out.append(tuple(v) if isinstance(v, list) else list(v))
+    elif isinstance(b, ObjectT) and b.kind == "dataclass" and dataclasses.is_dataclass(v):
+        for f in b.fields:
+            fb = strip(f.t)
+            if isinstance(fb, Coll) and fb.c in ("seq", "coll") and not f.init_false and not f.initvar and len(out) < limit:
+                cur = getattr(v, f.name, None)
+                if isinstance(cur, (list, tuple)):
+                    c = copy.copy(v)
+                    try:
+                        object.__setattr__(c, f.name, tuple(cur) if isinstance(cur, list) else list(cur))
+                    except Exception:
+                        continue
+                    out.append(c)
+    return out
